@@ -180,8 +180,8 @@ def count_unmodelled(ctx, imports, ctype, checker, cases, label):
         return
     n = 0
     for i in range(0, len(cases), 400):
-        body = "Definition cases : list (%s) := [\n%s\n].\nEval vm_compute in (List.length (bad_indices (%s) cases)).\n" % (
-            ctype, ";\n".join(t for t, _ in cases[i:i + 400]), checker)
+        body = "%sDefinition cases : list (%s) := [\n%s\n].\nEval vm_compute in (List.length (bad_indices (%s) cases)).\n" % (
+            H.I.prelude([t for t, _ in cases[i:i + 400]]), ctype, ";\n".join(t for t, _ in cases[i:i + 400]), checker)
         rc, out, vals = ctx.coq_eval("%s_unm_%s_%d" % (ctx.prop, label, i), imports, body)
         if rc == 0 and vals:
             try:
@@ -237,9 +237,9 @@ def run(ctx):
     traces += run_svc(ctx, clock, some[:1] if ctx.quick else some, pair_faults,
                       lambda s, p, d, f: d in ("code", "alone") or not ctx.quick)
     clock.uninstall()
-    ctx.coq_check_cases(H.RESP_IMPORTS, H.RESP_TYPE, "chk_resp_case", msg_cases, shard=400, label="msg",
+    H.check_cases(ctx, H.RESP_IMPORTS, H.RESP_TYPE, "chk_resp_case", msg_cases, shard=400, label="msg",
                         diag="run_resp_case")
-    ctx.coq_check_cases(H.TRACE_IMPORTS, H.TRACE_TYPE, "chk_trace", traces, shard=120, label="svc",
+    H.check_cases(ctx, H.TRACE_IMPORTS, H.TRACE_TYPE, "chk_trace", traces, shard=120, label="svc",
                         diag="first_bad_step")
     if not ctx.quick:
         count_unmodelled(ctx, H.RESP_IMPORTS, H.RESP_TYPE, "unmodelled_resp_case", msg_cases, "msg")
